@@ -344,7 +344,8 @@ def jobs(tier):
         for n_dim in dims:
             for n_ids in ids:
                 out.append(('value', 'case_value',
-                            dict(kind=kind, n_dim=n_dim, n_ids=n_ids), {}))
+                            dict(kind=kind, n_dim=n_dim, n_ids=n_ids),
+                            {'max_paths': 1100}))
                 for up in (False, True):
                     out.append(('sens', 'case_sens', dict(
                         kind=kind, n_dim=n_dim, n_ids=n_ids, upstream=up),
